@@ -24,5 +24,20 @@ Definition f_abs_gt (b t : N) : bool := negb (f_isnan b) && N.ltb t (f_abs b).
 (* f32 `==` on non-NaN values, bit equality otherwise: "reads back exactly" *)
 Definition f_same (a b : N) : bool := N.eqb a b || (f_iszero a && f_iszero b).
 
+(* exact value of a finite f32, scaled by 2^149 (an integer): (-1)^s * m * 2^(e-1) for normal numbers
+   (m = 2^23 + mantissa, e = biased exponent), (-1)^s * mantissa for subnormals and zeros *)
+Definition f_finite (b : N) : bool := negb (N.eqb (f_exp (f_abs b)) 255).
+Definition f_scaled (b : N) : Z :=
+  let a := f_abs b in
+  let e := f_exp a in
+  let m := f_man a in
+  let v := if N.eqb e 0 then Z.of_N m else Z.shiftl (Z.of_N (8388608 + m)) (Z.of_N e - 1) in
+  if f_neg b then (- v)%Z else v.
+(* |a - b| <= 2^-20 (about 9.5e-7) on finite values.  Used where the property compares a score the cached
+   index reports -- computed as 1 - (1 - cos), two extra roundings of at most 2^-24 each on values in
+   [-1, 2] -- with the exact scan's score for the same pair of vectors. *)
+Definition f_close (a b : N) : bool :=
+  f_finite a && f_finite b && Z.leb (Z.abs (f_scaled a - f_scaled b)) (Z.shiftl 1 129).
+
 Definition vec_eqb (a b : vec) : bool := list_eqb N.eqb a b.
 Definition same_dim (a b : vec) : bool := Nat.eqb (length a) (length b).
